@@ -7,7 +7,8 @@ MC     : MC_VEcu_cov (action coverage), MC_VEcu_oneoff (design-level E4), MC_VEc
 binding: code -> spec: real RandomUDSServer(seed, parameters) behind UDSServerTransport.handle_request,
          every exchange validated by Trace_VEcu (TLC); histories over several tester connections (harness.c13_conn:
          hang up / reconnect / two testers / pauses) through the real handle_client loops and run() of the tcp-lines
-         and unix-lines server transports;
+         and unix-lines server transports; [E4-only-that-rule]: histories sent in lock-step to the ECU and to its
+         twin that offers every service / sub-function (harness.c13_twin), with the model-reading rules switched off;
          spec -> code: the transitions TLC prints for the design layer are replayed into a real
          RandomUDSServer whose `services` is the MC model.
 """
@@ -28,6 +29,7 @@ from harness import c13_conn as K
 from harness import c13_corpus as C
 from harness import c13_ecu as E
 from harness import c13_replay as R
+from harness import c13_twin as T
 from harness import tlc, vloop
 from harness.common import Machinery, Report, quiet_gallia_logging
 
@@ -329,6 +331,10 @@ def run(tier: str, seed: int) -> Report:
         "a history starts from a freshly constructed state object (type(server.state)()), as after start-up",
         "spec -> code: after a state has been reached by real requests once, it is restored by assignment before "
         "each of the requests tried in it",
+        "[E4-only-that-rule]: the twin is a second RandomUDSServer(seed, parameters) whose `services` is assigned a "
+        "model that offers every service and sub-function in every visited session (DiagnosticSessionControl "
+        "untouched); only the kind of reply (none / positive / negative + response code) and the state after are "
+        "compared, and only where a disabled model-reading rule would have answered",
     ]
     phases: dict[str, float] = {}
     t_last = [time.time()]
@@ -365,10 +371,12 @@ def run(tier: str, seed: int) -> Report:
     exp = R.Export(eres.out)
     mark("export")
     # ---- 3. drive the real code
-    corpus = K.ConnCorpus()
+    corpus = T.TwinCorpus()
     info: dict[str, Any] = {}
     asyncio.run(drive(tier, seed, corpus, exp, info))
     mark("drive")
+    asyncio.run(T.drive_twins(tier, seed, corpus, info["_models"], info))
+    mark("drive-twins")
     drive_connections(tier, seed, corpus, info)
     mark("drive-connections")
     # ground truth for "parsable": the codec's verdict taken in pristine interpreters, not in this process (which
@@ -385,14 +393,30 @@ def run(tier: str, seed: int) -> Report:
             if s["p"] != want:
                 repinned += 1
                 s["p"] = want
+            if "t" in s:  # the twin's exchange carried by the step
+                tp = bytes.fromhex(s["t"]["hex"])
+                s["t"]["p"] = False if E.iso_wellformed(tp) is False else truth[s["t"]["hex"]]
     rep.extra["parsable_ground_truth"] = {"distinct_requests": len(truth), "order_disagreements": len(disagree),
                                           "differs_from_in_process_verdict": repinned}
     mark("pristine-classification")
     # ---- 4. TLC validates every exchange
-    verdicts = corpus.validate(parallel=5, steps_per_batch=36000)
+    verdicts = corpus.validate(parallel=6, steps_per_batch=36000)
     for res in corpus.tlc_results:
         rep.add_tlc(res, "Trace_VEcu batch")
     mark("validate")
+    # [E4-only-that-rule]: how many exchanges TLC really held against their twin (a family that compares nothing
+    # would be vacuous); informational split by the rules that were off
+    tw = corpus.twin_counts()
+    by_off: dict[str, int] = {}
+    for t in corpus.traces:
+        if "m2" in t:
+            off = set(E.RULES) - set(t["B"])
+            k = "+".join(r for r in ("sns", "sfns") if r in off) + (" only" if off <= {"sns", "sfns"} else " and others")
+            by_off[k] = by_off.get(k, 0) + tw.get(t["id"], 0)
+    info["only_that_rule"]["compared_with_twin"] = sum(by_off.values())
+    info["only_that_rule"]["compared_by_rules_off"] = by_off
+    if min([by_off.get("sns only", 0), by_off.get("sfns only", 0), by_off.get("sns+sfns only", 0)]) < 20:
+        raise Machinery(f"[E4-only-that-rule] family is (nearly) vacuous: exchanges compared with the twin: {by_off}")
     rep.traces = len(corpus.traces)
     rep.evaluations = corpus.n_steps
     by_id = {t["id"]: t for t in corpus.traces}
@@ -419,7 +443,10 @@ def run(tier: str, seed: int) -> Report:
                 a["detail"] = {"meta": t["meta"], "B": t["B"], "start_state": start,
                                "requests": [s["hex"] for s in t["steps"][lo:idx]],
                                "failing": dict({k: t["steps"][idx - 1][k] for k in ("rhex", "x", "s", "l", "pk")},
-                                               hex=t["steps"][idx - 1]["hex"][:64]),
+                                               hex=t["steps"][idx - 1]["hex"][:64],
+                                               **({"twin": {k: t["steps"][idx - 1]["t"][k]
+                                                            for k in ("hex", "rhex", "x", "s", "l", "bs", "bl")}}
+                                                  if "t" in t["steps"][idx - 1] else {})),
                                "mc_model": bool(t["meta"].get("mc", False))}
     for a in agg.values():
         a["detail"]["occurrences"] = a["n"]
@@ -485,8 +512,10 @@ def run(tier: str, seed: int) -> Report:
                         f"(have {[k for k, _c in corrupted]})")
     mutants = asyncio.run(drive_mutants(seed, corpus))
     tmutants = vloop.run(drive_transport_mutants(seed, corpus))
+    variants = asyncio.run(T.drive_variants(seed, corpus))
     sv = corpus.validate([c for _k, c in corrupted] + [t for ts in mutants.values() for t in ts]
-                         + [t for ts in tmutants.values() for t in ts], parallel=1, steps_per_batch=10**9)
+                         + [t for ts in tmutants.values() for t in ts] + [t for ts in variants.values() for t in ts],
+                         parallel=1, steps_per_batch=10**9)
     del corpus.traces[n_real:]
     cor = {k: sv[c["id"]][0] for k, c in corrupted}
     if any(x == "ok" for x in cor.values()):
@@ -512,6 +541,19 @@ def run(tier: str, seed: int) -> Report:
         if prefix is not None and not any(lab.startswith(prefix) for lab in labels):
             raise Machinery(f"binding self-test: transport mutant '{name}' not rejected with a {prefix} clause "
                             f"(labels: {labels}): the connection family / contract is too weak")
+    # [E4-only-that-rule]: servers whose remaining stages consult the premise of a disabled rule must be rejected,
+    # a dispatcher of another structure must be accepted
+    for name, (_cls, prefix) in T.variant_servers().items():
+        labels = sorted({lab for t in variants[name] for _i, lab in sv[t["id"]][1]})
+        mres[name] = labels
+        if rep.violations:
+            continue
+        if prefix is None and labels:
+            raise Machinery(f"binding self-test: the legitimate server variant '{name}' is rejected ({labels}): "
+                            "the twin clause demands more than the statement")
+        if prefix is not None and not any(lab.startswith(prefix) for lab in labels):
+            raise Machinery(f"binding self-test: server variant '{name}' not rejected with a {prefix} clause "
+                            f"(labels: {labels}): the twin family / clause is too weak")
     rep.extra["binding_selftest"] = {"corrupted": cor, "server_mutants": mres}
     mark("selftests")
     E.unpatch_env()
@@ -576,6 +618,14 @@ def replay(path: str) -> int:
             else:
                 s = await E.make_server(meta["seed"], meta["params"])
                 m = E.model_of(s)
+            if meta.get("origin") == T.ORIGIN:  # ECU and twin in lock-step: re-run the whole pair of histories
+                verdict, badsteps, so = await asyncio.to_thread(lambda: asyncio.run(T.replay_case(meta, set(d["B"]))))
+                shown = [(x["hex"][:16], x["rhex"], (x["s"], x["l"]), "twin:", x["t"]["rhex"], (x["t"]["s"], x["t"]["l"]))
+                         for x in (so[i - 1] for i, _l in badsteps[:3])]
+                print(f"replay only-that-rule B-off={sorted(set(E.RULES) - set(d['B']))} home={meta['home']} "
+                      f"differs={shown} verdict={verdict}")
+                bad += verdict != "ok"
+                continue
             if meta.get("origin") == "connections":  # a history over several connections: re-run the whole script
                 fl = meta["flavour"]
                 p = E.Probe(s)
